@@ -235,6 +235,16 @@ add(Gram("c8", Level([
     Cmds([Cmd(["mid"], _c8_mid)]),
 ]), short_flags="vmz", note="depth 2; the inner command's name `7` is valid data for the sibling branch (repeated positional)"))
 
+add(Gram("am", None, short_flags="ab", short_args="a", names=("ab", ["arg", "flag", "bee"], []),
+         note="short `a` is both a flag and an argument (ambiguous clusters), optional, next to a switch"))
+
+_c9_remote = Level([Cmds([Cmd(["add"], _c1_add)])])
+_c9_stash = Level([Cmds([Cmd(["add"], _c1_rm), Cmd(["stash"], _c1_add)])])
+add(Gram("c9", Level([
+    Named("switch", "v", ["verbose"]),
+    Cmds([Cmd(["remote"], _c9_remote), Cmd(["stash"], _c9_stash)]),
+]), short_flags="vn", short_args="f", note="the same command name at several places of the tree (`remote add`, `stash add`, `stash stash`)"))
+
 add(Gram("k5", None, short_flags="rs", short_args="w", names=("rsw", ["rect", "sw", "width"], []), note="switch, then optional adjacent group (flag + argument), then optional positional"))
 
 _hd_secret = Named("switch", "s", ["secret"])
